@@ -23,6 +23,13 @@ Kernels (DESIGN.md section 4, C06):
        verdict and asking order for all leaf values.  K2q / K2q1: the same with soft- ("||") and hard-quoted
        ('||') forms of the operator, parenthesis and symbol-name tokens in the alphabet (K2q), or replacing exactly one
        token of a longer plain string (K2q1): a quoted token is never an operator, a parenthesis or a symbol name.
+       K2n1 / K2nc: malformed / near-miss operator tokens (every string of <= 3 characters of {&, |, !} that is not an operator
+       of the host's grammar: `&`, `|`, `&&&`, `|||`, `&|`, `!!`, the operators of the OTHER grammar; K2nc also the quoted
+       operators) - K2n1: replacing exactly one operator token of every plain token string; K2nc: at each single operator
+       position, and at all infix positions at once, of every generated chain of up to 3 operators (needed and redundant
+       parentheses, line breaks at any gap).  Oracle: the reference recogniser (such a token is neither operator nor
+       operand) for the four parser variants, and on the whole-text route `def TYPE M = TEXT` "a text the documented grammar
+       does not derive is a syntax error" (a derived one is read as the expression parser reads it).
        Every resolved primitive (all kernels) is applied twice - matchers to a second model, transformers to a second,
        different model - and both results are compared with the oracle.
   K3   contexts restricted to a simple expression: `line-num INTEGER-MATCHER` inside line-matcher
@@ -1083,8 +1090,8 @@ def _k2n_obligations(tier) -> List[Ob]:
         else:
             for f in (K2_ALPHABET_T if t else K2_ALPHABET_M):
                 one(host, (f,), 6 if t else 5, APN if host == 'integer' else AP, 1200)
-            chain(host, 'n2-3', L23, 3, 2, 2, APN, 1200, nparts=2)
-            chain(host, 'n4', L4, 3, 1, 1, APN, 1800, nparts=4)
+            chain(host, 'n2-3', L23, 3, 2, 2, APN if host == 'integer' or t else AP, 1800, nparts=2)
+            chain(host, 'n4', L4, 3, 1, 1, APN if host == 'integer' or t else AP, 1800, nparts=4)
     one('integer', ('A',), 3, AP, 300, oracle_bug='near-miss-is-operator')
     chain('integer', 'seeded', [('A', 'B', 'C')], 1, 0, 0, AP, 300, oracle_bug='near-miss-is-operator')
     return obs
@@ -1349,6 +1356,20 @@ def selftest(tier: str) -> int:
     assert not in_region_b(('(', 'A', NL, '&&', 'B', ')')) and not in_region_b(('A', '&&', NL, 'B'))
     assert not in_region_b(('A', '||', 'B', NL, '&&', 'A'))
     n += 8
+    # (6) near-miss operator tokens: none is an operator of the host's grammar; the single characters, the tripled forms and
+    #     the operators of the other grammar are among them; the whole-text route reads a well-formed text as the expression parser does
+    for host in X.ALL_HOSTS:
+        near = near_tokens(host, R.OPERATOR_CHARS, quoted=True)
+        ops = host_operators(host)
+        assert not set(near) & set(ops) and len(set(near)) == len(near)
+        assert {'&', '&&&', '|||', '&|', '!!', '"%s"' % ops[0]} <= set(near)
+        assert set(('&&', '||', '!') if host == 'transformer' else ('|',)) <= set(near)
+        src = 'A | ( B | A )' if host == 'transformer' else 'A && ( B || ! A )'
+        d = X.real_def_parse(host, src)
+        r = X._real_parse(host, False, False, src)
+        assert d[0] == 'ok' and r[0] == 'ok' and X.fingerprint(d[1], X.OPAQUE) == X.fingerprint(r[1], X.OPAQUE)
+        assert X.real_def_parse(host, src + ' )')[0] == 'err' and X.real_def_parse(host, src + '\n)')[0] == 'ok'
+        n += 6
     return n
 
 
@@ -1378,7 +1399,7 @@ ASSUMPTIONS = [
 ]
 
 OUTSIDE = [
-    OUT_PRIMS, OUT_TOKENIZER, OUT_SIMPLE,
+    OUT_PRIMS, OUT_TOKENIZER, OUT_SIMPLE, OUT_NEAR,
     'expressions larger than the stated bounds (no induction over the size of the expression)',
 ]
 
